@@ -291,4 +291,125 @@ ENSURES(RET == 1 IMPLIES *path_len_constraint >= -1)
 ;
 #endif
 #endif
+
+/* ------------------------------------------------------------------ signed wrapper and link verification (C07, C15) */
+#ifdef CONTRACT_SIGNED
+#include <gmssl/sm2.h>
+#ifdef VERIF_CBMC
+size_t G_sf_tbs; size_t G_sf_tbslen; int G_sf_alg; size_t G_sf_sig; size_t G_sf_siglen; unsigned G_sf_calls;
+size_t G_vi_key; size_t G_vi_id; size_t G_vi_idlen; int G_vi_ret; unsigned G_vi_calls;
+size_t G_vu_data; size_t G_vu_len; int G_vu_ret; unsigned G_vu_calls;
+size_t G_vf_sig; size_t G_vf_siglen; int G_vf_ret; unsigned G_vf_calls;
+int G_ne_last; size_t G_ne_a; size_t G_ne_b; unsigned G_ne_calls;
+int G_sv_last; size_t G_sv_a; size_t G_sv_ca; size_t G_sv_idlen; unsigned G_sv_calls;
+size_t G_gs_of; size_t G_gs_name; unsigned G_gs_calls; size_t G_gi_of; size_t G_gi_name; unsigned G_gi_calls;
+#endif
+/* SEQUENCE { tbs ANY, signatureAlgorithm, signatureValue BIT STRING }: slices by position, content consumed entirely */
+int x509_signed_from_der(const uint8_t **tbs, size_t *tbslen, int *sig_alg, const uint8_t **sig, size_t *siglen, const uint8_t **in, size_t *inlen)
+REQUIRES(WR_OK(tbs, sizeof(*tbs)) && WR_OK(tbslen, sizeof(*tbslen)) && WR_OK(sig_alg, sizeof(int)) && WR_OK(sig, sizeof(*sig)) && WR_OK(siglen, sizeof(*siglen)) && DER_RD_REQ(in, inlen))
+ASSIGNS(*tbs, *tbslen, *sig_alg, *sig, *siglen, *in, *inlen, G_sf_tbs, G_sf_tbslen, G_sf_alg, G_sf_sig, G_sf_siglen, G_sf_calls)
+ENSURES(RET == 1 || RET == 0 || RET == -1)
+ENSURES(RET == 0 IMPLIES DER_RD_SAME(in, inlen))
+ENSURES(G_sf_calls == OLD(G_sf_calls) + 1)
+ENSURES(RET == 1 IMPLIES DER_RD_ADV(in, inlen) && *tbslen >= 2 && *siglen >= 1 && SLICE_IN(*tbs, *tbslen, OLD(*in), OLD(*inlen)) && SLICE_IN(*sig, *siglen, OLD(*in), OLD(*inlen)))
+ENSURES(RET == 1 IMPLIES G_sf_tbs == (size_t)*tbs && G_sf_tbslen == *tbslen && G_sf_alg == *sig_alg && G_sf_sig == (size_t)*sig && G_sf_siglen == *siglen)
+;
+int sm2_verify_init(SM2_VERIFY_CTX *ctx, const SM2_KEY *key, const char *id, size_t idlen)
+REQUIRES(WR_OK(ctx, sizeof(*ctx)) && RD_OK(key, sizeof(*key)))
+ASSIGNS(OBJ_UPTO((uint8_t *)ctx, sizeof(*ctx)), G_vi_key, G_vi_id, G_vi_idlen, G_vi_ret, G_vi_calls)
+ENSURES((RET == 1 || RET == -1) && G_vi_key == (size_t)key && G_vi_id == (size_t)id && G_vi_idlen == idlen && G_vi_ret == RET && G_vi_calls == OLD(G_vi_calls) + 1)
+;
+int sm2_verify_update(SM2_VERIFY_CTX *ctx, const uint8_t *data, size_t datalen)
+REQUIRES(RW_OK(ctx, sizeof(*ctx)) && (datalen == 0 || RD_OK(data, datalen)))
+ASSIGNS(OBJ_UPTO((uint8_t *)ctx, sizeof(*ctx)), G_vu_data, G_vu_len, G_vu_ret, G_vu_calls)
+ENSURES((RET == 1 || RET == -1) && G_vu_data == (size_t)data && G_vu_len == datalen && G_vu_ret == RET && G_vu_calls == OLD(G_vu_calls) + 1)
+;
+#ifdef CONTRACT_VERIFY_FINISH_RECORDING
+int sm2_verify_finish(SM2_VERIFY_CTX *ctx, const uint8_t *sigbuf, size_t siglen)
+REQUIRES(RW_OK(ctx, sizeof(*ctx)) && siglen <= (size_t)INT_MAX && (sigbuf == NULL || RD_OK(sigbuf, siglen)))
+ASSIGNS(OBJ_UPTO((uint8_t *)ctx, sizeof(*ctx)), G_vf_sig, G_vf_siglen, G_vf_ret, G_vf_calls)
+ENSURES((RET == 1 || RET == -1) && G_vf_sig == (size_t)sigbuf && G_vf_siglen == siglen && G_vf_ret == RET && G_vf_calls == OLD(G_vf_calls) + 1)
+;
+#endif
+/* C15 / C07: a signed object verifies only if it is one SEQUENCE with nothing behind it, the outer algorithm is sm2sign-with-sm3,
+   and the SM2 streaming verification — initialised with the GIVEN key and ID, fed EXACTLY the TBS bytes, finished on EXACTLY the
+   signature bytes — returned 1 at every step */
+int x509_signed_verify(const uint8_t *a, size_t alen, const SM2_KEY *pub_key, const char *signer_id, size_t signer_id_len)
+REQUIRES(alen <= (size_t)INT_MAX && a != NULL && RD_OK(a, alen) && RD_OK(pub_key, sizeof(*pub_key)))
+ASSIGNS(G_sf_tbs, G_sf_tbslen, G_sf_alg, G_sf_sig, G_sf_siglen, G_sf_calls, G_vi_key, G_vi_id, G_vi_idlen, G_vi_ret, G_vi_calls, G_vu_data, G_vu_len, G_vu_ret, G_vu_calls, G_vf_sig, G_vf_siglen, G_vf_ret, G_vf_calls)
+ENSURES(RET == 1 || RET == -1)
+ENSURES(RET == 1 IMPLIES G_sf_calls == OLD(G_sf_calls) + 1 && G_sf_alg == OID_sm2sign_with_sm3)
+ENSURES(RET == 1 IMPLIES G_vi_calls == OLD(G_vi_calls) + 1 && G_vi_ret == 1 && G_vi_key == (size_t)pub_key && G_vi_id == (size_t)signer_id && G_vi_idlen == signer_id_len)
+ENSURES(RET == 1 IMPLIES G_vu_calls == OLD(G_vu_calls) + 1 && G_vu_ret == 1 && G_vu_data == G_sf_tbs && G_vu_len == G_sf_tbslen)
+ENSURES(RET == 1 IMPLIES G_vf_calls == OLD(G_vf_calls) + 1 && G_vf_ret == 1 && G_vf_sig == G_sf_sig && G_vf_siglen == G_sf_siglen)
+;
+#ifdef CONTRACT_LINK
+int x509_cert_get_subject(const uint8_t *a, size_t alen, const uint8_t **d, size_t *dlen)
+REQUIRES(alen <= (size_t)INT_MAX && RD_OK(a, alen) && WR_OK(d, sizeof(*d)) && WR_OK(dlen, sizeof(*dlen)))
+ASSIGNS(*d, *dlen, G_gs_of, G_gs_name, G_gs_calls)
+ENSURES(RET == 1 || RET == -1)
+ENSURES(G_gs_calls == OLD(G_gs_calls) + 1 && G_gs_of == (size_t)a)
+ENSURES(RET == 1 IMPLIES SLICE_IN(*d, *dlen, a, alen) && G_gs_name == (size_t)*d)
+;
+int x509_cert_get_issuer(const uint8_t *a, size_t alen, const uint8_t **name, size_t *namelen)
+REQUIRES(alen <= (size_t)INT_MAX && RD_OK(a, alen) && WR_OK(name, sizeof(*name)) && WR_OK(namelen, sizeof(*namelen)))
+ASSIGNS(*name, *namelen, G_gi_of, G_gi_name, G_gi_calls)
+ENSURES(RET == 1 || RET == -1)
+ENSURES(G_gi_calls == OLD(G_gi_calls) + 1 && G_gi_of == (size_t)a)
+ENSURES(RET == 1 IMPLIES SLICE_IN(*name, *namelen, a, alen) && G_gi_name == (size_t)*name)
+;
+int x509_name_equ(const uint8_t *a, size_t alen, const uint8_t *b, size_t blen)
+REQUIRES(alen <= (size_t)INT_MAX && blen <= (size_t)INT_MAX && (alen == 0 || RD_OK(a, alen)) && (blen == 0 || RD_OK(b, blen)))
+ASSIGNS(G_ne_last, G_ne_a, G_ne_b, G_ne_calls)
+ENSURES((RET == 1 || RET == 0) && G_ne_last == RET && G_ne_a == (size_t)a && G_ne_b == (size_t)b && G_ne_calls == OLD(G_ne_calls) + 1)
+;
+int x509_signed_verify_by_ca_cert(const uint8_t *a, size_t alen, const uint8_t *cacert, size_t cacertlen, const char *signer_id, size_t signer_id_len)
+REQUIRES(alen <= (size_t)INT_MAX && RD_OK(a, alen) && cacertlen <= (size_t)INT_MAX && RD_OK(cacert, cacertlen))
+ASSIGNS(G_sv_last, G_sv_a, G_sv_ca, G_sv_idlen, G_sv_calls)
+ENSURES((RET == 1 || RET == 0 || RET == -1) && G_sv_last == RET && G_sv_a == (size_t)a && G_sv_ca == (size_t)cacert && G_sv_idlen == signer_id_len && G_sv_calls == OLD(G_sv_calls) + 1)
+;
+/* C07: "each certificate names the next one's subject as issuer and verifies under its public key" */
+#ifndef CONTRACT_CHAIN
+int x509_cert_verify_by_ca_cert(const uint8_t *a, size_t alen, const uint8_t *cacert, size_t cacertlen, const char *signer_id, size_t signer_id_len)
+REQUIRES(alen <= (size_t)INT_MAX && RD_OK(a, alen) && cacertlen <= (size_t)INT_MAX && RD_OK(cacert, cacertlen))
+ASSIGNS(G_gs_of, G_gs_name, G_gs_calls, G_gi_of, G_gi_name, G_gi_calls, G_ne_last, G_ne_a, G_ne_b, G_ne_calls, G_sv_last, G_sv_a, G_sv_ca, G_sv_idlen, G_sv_calls)
+ENSURES(RET == 1 || RET == -1)
+ENSURES(RET == 1 IMPLIES G_gi_calls == OLD(G_gi_calls) + 1 && G_gi_of == (size_t)a && G_gs_calls == OLD(G_gs_calls) + 1 && G_gs_of == (size_t)cacert)
+ENSURES(RET == 1 IMPLIES G_ne_calls == OLD(G_ne_calls) + 1 && G_ne_last == 1 && ((G_ne_a == G_gi_name && G_ne_b == G_gs_name) || (G_ne_a == G_gs_name && G_ne_b == G_gi_name)))
+ENSURES(RET == 1 IMPLIES G_sv_calls == OLD(G_sv_calls) + 1 && G_sv_last == 1 && G_sv_a == (size_t)a && G_sv_ca == (size_t)cacert && G_sv_idlen == signer_id_len)
+;
+#endif
+#endif
+#endif
+
+/* ------------------------------------------------------------------ trust-store lookup by subject (C07) */
+#ifdef CONTRACT_LOOKUP
+int x509_cert_from_der(const uint8_t **a, size_t *alen, const uint8_t **in, size_t *inlen)
+REQUIRES(WR_OK(a, sizeof(*a)) && WR_OK(alen, sizeof(*alen)) && DER_RD_REQ(in, inlen))
+ASSIGNS(*a, *alen, *in, *inlen)
+ENSURES(RET == 1 || RET == 0 || RET == -1)
+ENSURES(RET == 0 IMPLIES DER_RD_SAME(in, inlen))
+ENSURES(RET == 1 IMPLIES DER_RD_ADV(in, inlen) && DER_SLICE(*a, in, inlen, 0) && *alen == DER_CONSUMED(inlen) && *alen >= 2)
+;
+/* records the certificate whose subject was extracted, and (name_equ) that the comparison was made on that subject */
+int x509_cert_get_subject(const uint8_t *a, size_t alen, const uint8_t **d, size_t *dlen)
+REQUIRES(alen <= (size_t)INT_MAX && RD_OK(a, alen) && WR_OK(d, sizeof(*d)) && WR_OK(dlen, sizeof(*dlen)))
+ASSIGNS(*d, *dlen, verif_l_gs_of)
+ENSURES(RET == 1 || RET == -1)
+ENSURES(RET == 1 IMPLIES SLICE_IN(*d, *dlen, a, alen) && verif_l_gs_of == (size_t)a)
+;
+int x509_name_equ(const uint8_t *a, size_t alen, const uint8_t *b, size_t blen)
+REQUIRES(alen <= (size_t)INT_MAX && blen <= (size_t)INT_MAX && (alen == 0 || RD_OK(a, alen)) && (blen == 0 || RD_OK(b, blen)))
+ASSIGNS(verif_l_ne_last, verif_l_ne_a_of, verif_l_calls)
+ENSURES((RET == 1 || RET == 0) && verif_l_ne_last == RET && verif_l_ne_a_of == verif_l_gs_of && verif_l_calls == OLD(verif_l_calls) + 1)
+;
+/* RET == 1: the certificate returned is an element of the store [d, d+dlen) and the name comparison made on ITS subject said equal */
+int x509_certs_get_cert_by_subject(const uint8_t *d, size_t dlen, const uint8_t *subject, size_t subject_len, const uint8_t **cert, size_t *certlen)
+REQUIRES(dlen <= (size_t)INT_MAX && (dlen == 0 || (d != NULL && RD_OK(d, dlen))) && subject_len <= (size_t)INT_MAX && (subject_len == 0 || RD_OK(subject, subject_len)) && WR_OK(cert, sizeof(*cert)) && WR_OK(certlen, sizeof(*certlen)))
+ASSIGNS(*cert, *certlen, verif_l_ne_last, verif_l_ne_a_of, verif_l_gs_of, verif_l_calls)
+ENSURES(RET == 1 || RET == 0 || RET == -1)
+ENSURES(RET == 1 IMPLIES *certlen >= 2 && SLICE_IN(*cert, *certlen, d, dlen) && verif_l_ne_last == 1 && verif_l_ne_a_of == (size_t)*cert)
+ENSURES(RET == 0 IMPLIES *cert == NULL && *certlen == 0)
+;
+#endif
 #endif
